@@ -147,7 +147,10 @@ def calibrate(ctx) -> None:
 def _sizes(quick: bool):
     small = st.one_of(st.integers(1, 2048), st.sampled_from([1, 3, 4, 15, 16, 17, 511, 512, 513, 1023, 1024, 1025, 2047, 2048, 4096, 5000]))
     big = st.integers(1, 65536)
-    return st.one_of(*([small] * (7 if quick else 3)), big)
+    # binary round sizes of firmware padded to a flash partition (and their neighbours): hashing and encryption work through large
+    # images in pieces, whatever the piece size is
+    huge = st.sampled_from([0x10000, 0x20000, 0x40000, 0x80000, 0x100000, 0x200000, 0x400000, 0x200000 - 1, 0x200000 + 1, 0x300000, 0x100000 + 16])
+    return st.one_of(*([small] * (7 if quick else 3)), big, huge)
 
 
 def _u(bits: int):
